@@ -37,6 +37,11 @@ package types
 //@ requires wf(key1) && wf(key2)
 //@ ensures r == (uk(key1) == uk(key2))
 //
+//@ func types.Value -> v, ok
+//@ props C01 C05
+//@ ensures entry.Tombstone ==> (!ok && v == nil)
+//@ ensures !entry.Tombstone ==> (ok && v == entry.Value)
+//
 //@ func types.KeyWithTs -> r
 //@ props C01 C05 C10
 //@ ensures r == mk(key, ts)
@@ -52,4 +57,7 @@ package types
 // canon(s): s is exactly KeyWithTs(uk(s), ts(s)) (no leading zeros or junk in the version). Two
 // canonical keys that compare equal are the same string.
 //@ lemma canon_eq local props C09 C17 C10: forall(Str(a), Str(b), (canon(a) && canon(b) && cmp(a, b) == 0) ==> a == b, trig(strord(uk(a)), strord(uk(b))))
+// the same fact, available to functions, triggered by membership of both keys in one set (the
+// abstract store View): two canonical members with the same user key and version are one string
+//@ lemma canon_set_unique props C01 C05: forall(sort("(Array Str Bool)", VH), Str(a), Str(b), (VH[a] && VH[b] && canon(a) && canon(b) && uk(a) == uk(b) && ts(a) == ts(b)) ==> a == b, trig(VH[a], VH[b]))
 //@ lemma canon_mk props C09 C17 C01: forall(Str(k), Int(t), (0 <= t && t <= 18446744073709551615) ==> canon(mk(k, t)), trig(mk(k, t)))
